@@ -101,6 +101,7 @@ static inline void print_log(FILE *f) {
 extern "C" void __sanitizer_set_death_callback(void (*)(void)) __attribute__((weak));
 static std::string *g_death_spec = nullptr;
 static unsigned long long g_death_run = 0;
+static int g_death_fd = 1;
 static void death_cb() {
   if (!g_death_spec) return;
   size_t tl; const uint32_t *t = sim_trace(&tl);
@@ -108,7 +109,7 @@ static void death_cb() {
   char head[256];
   int n = snprintf(head, sizeof head, "\n{\"partial\":%llu,\"steps\":%llu,\"spec\":", g_death_run, (unsigned long long)sim_now());
   std::string line = std::string(head, (size_t)n) + jstr(*g_death_spec) + ",\"trace\":\"" + tr + "\"}\n";
-  ssize_t w = write(1, line.data(), line.size()); (void)w;
+  ssize_t w = write(g_death_fd, line.data(), line.size()); (void)w;
 }
 #include <sys/resource.h>
 static inline void install_death_cb(std::string *spec) {
